@@ -13,7 +13,7 @@
 (* A state s has at least: fs (PosixFS state), fds, dirty, syncfail, pubs,  *)
 (* supplied, planted, cur, steps, listed, created, opfds.                   *)
 (***************************************************************************)
-EXTENDS PosixFS, SecondChance
+EXTENDS PosixFS, SecondChance, Stack
 
 Get(f, k, dflt) == IF k \in DOMAIN f THEN f[k] ELSE dflt
 Put(f, k, v) == (k :> v) @@ f
@@ -263,6 +263,28 @@ NoLeak(cfg, s, e) ==
         \A d \in DOMAIN s.fs.ents : IsKismetTemp(cfg, d) =>
             \A n \in DOMAIN s.fs.ents[d] :
                 s.fs.ents[d][n] \in Get(s.created, e.p, {}) => s.fs.ents[d][n] \in Get(s.unlinkfailed, e.p, {})
+
+\* ---- C13 / C14: the stacked cache does what Stack.tla says (sequential matrix points)
+\* cfg.sw: the world of Stack.tla plus [key, wroot, wtags: level of each writer tag]
+LevelOfTag(sw, t) == IF t = sw.tagw THEN 0 ELSE IF t = sw.tagp THEN 99 ELSE t - sw.tagr
+ValOf(c) == IF Has(c, "val") THEN c.val ELSE "?"
+WPost(cfg, s) ==
+    LET sw == cfg.sw
+        ds == {d \in DOMAIN s.fs.ents : IsWCacheDir(cfg, d) /\ sw.key \in DOMAIN s.fs.ents[d]}
+    IN IF ds = {} THEN "none"
+       ELSE IF Cardinality(ds) > 1 THEN "DUP"
+       ELSE LET d == CHOOSE x \in ds : TRUE IN ValOf(s.fs.inos[s.fs.ents[d][sw.key]].c)
+StackObs(cfg, s, r, e) ==
+    [out |-> IF r.panic THEN "panic" ELSE IF r.ok THEN "ok" ELSE "err",
+     res |-> IF ~r.ok THEN "" ELSE IF r.res = "some" THEN (IF Has(e, "handle") THEN ValOf(e.handle.c) ELSE "?") ELSE r.res,
+     hit |-> IF Has(r, "judge") THEN r.judge.hit ELSE "none",
+     seen |-> IF Has(r, "judge") THEN ValOf(r.judge.c) ELSE "",
+     wpost |-> WPost(cfg, s),
+     pairs |-> IF Has(r, "checks") THEN {<<LevelOfTag(cfg.sw, r.checks[i][1].w), LevelOfTag(cfg.sw, r.checks[i][2].w)>> : i \in 1..Len(r.checks)} ELSE {},
+     kind |-> IF Has(r, "kind") THEN r.kind ELSE ""]
+StackOK(cfg, s, e) ==
+    e.e = "obs" /\ Has(cfg, "sw") /\ e.p = 1 /\ e.p \in DOMAIN s.lastret =>
+        ObservedOK(cfg.sw, StackObs(cfg, s, s.lastret[e.p], e))
 
 \* ---- C19: modes
 Mode0444(cfg, s, e) ==
